@@ -24,8 +24,7 @@ import (
 
 // after which blocks (by note) the replicas export; the import is done from the export after importNote (the last point
 // of the scenario before the history deliberately overwrites the erc20 parameters with undecodable bytes)
-var exportNotes = map[string]bool{"evm precompiles": true, "request batch": true, "14-day voting periods end": true,
-	"unbonded oracles / erc20 conversions": true}
+var exportNotes = map[string]bool{"request batch": true, "unbonded oracles / erc20 conversions": true}
 
 // (no export after the history overwrote the erc20 parameters: the SDK module manager exports every module in a goroutine of
 // its own, a panic there — GetParams on undecodable bytes — cannot be recovered and takes the process down)
